@@ -1040,9 +1040,9 @@ type sixKinds struct {
 // newest or an older one. Every step that populates must leave every tagged field at the current value.
 func olderFields(rep *report.Report, depth int) {
 	sec := rep.Add(&report.Section{Name: fmt.Sprintf("histories-of-parse-apply-rotate-depth%d", depth), Engine: "seqx", Exhaustive: true, Extra: map[string]int64{},
-		Rule:  "every sequence up to the depth bound over {ParseFields (at most two Fields values are kept), Apply through the first Fields, Apply through the second Fields, rotate every secret on the service and Refresh, NewStore with the struct in Structs} on one struct value with string, []byte, Secret, ,json int, Bin (value with pointer-receiver UnmarshalBinary), *Bin and an untagged field, starting with the pointer field {nil, preset}; after every Apply and every NewStore(Structs) each tagged field must hold the service's current value and the untagged field its sentinel; histories are never merged; non-trivial = histories whose last step populates after a rotation or a second parse",
-		Bound: fmt.Sprintf("depth %d, 5 operations, 2 initial states", depth)})
-	alpha := []string{"parse", "apply1", "apply2", "rotate", "newstore"}
+		Rule:  "every sequence up to the depth bound over {ParseFields (at most two Fields values are kept), Apply through the first Fields, Apply through the second Fields, rotate every secret on the service and Refresh, NewStore with the struct in Structs, replace the store by a new one on the rotated service} on one struct value with string, []byte, Secret, ,json int, Bin (value with pointer-receiver UnmarshalBinary), *Bin and an untagged field, starting with the pointer field {nil, preset}; after every Apply and every NewStore(Structs) each tagged field must hold the service's current value and the untagged field its sentinel; histories are never merged; non-trivial = histories whose last step populates after a rotation or a second parse",
+		Bound: fmt.Sprintf("depth %d, 6 operations, 2 initial states", depth)})
+	alpha := []string{"parse", "apply1", "apply2", "rotate", "newstore", "switch"}
 	names := []string{"a", "b", "s", "n", "v", "w"}
 	var rec func(hist []string, preset bool)
 	type staleCase struct {
@@ -1103,6 +1103,20 @@ func olderFields(rep *report.Report, depth int) {
 				if err := st.Refresh(context.Background()); err != nil {
 					panic(err)
 				}
+				interesting = true
+			case "switch":
+				// the program moves on to another store (the old one closed, the service rotated meanwhile):
+				// later Apply calls go to the new store
+				st.Close()
+				sv.mu.Lock()
+				sv.gen++
+				sv.mu.Unlock()
+				st2, err := setec.NewStore(context.Background(), setec.StoreConfig{Client: sv, Secrets: names, PollInterval: -1, Logf: func(string, ...any) {}})
+				if err != nil {
+					panic(err)
+				}
+				st = st2
+				stores = append(stores, st2)
 				interesting = true
 			case "newstore":
 				st3, err := setec.NewStore(context.Background(), setec.StoreConfig{Client: sv, Structs: []setec.Struct{{Value: &v}}, PollInterval: -1, Logf: func(string, ...any) {}})
